@@ -631,20 +631,6 @@ def class_kf_b(occs):
     return False
 
 
-def simple_program(tree):
-    """no label (definition or labelled jump), no named function expression - the class of
-    `capture_free_of_walk_facts` (Props/C07.lean); catch clauses are allowed"""
-    ok = [True]
-
-    def on(n):
-        if n.kind == 'Label':
-            ok[0] = False
-        elif n.kind in ('Break', 'Continue', 'FuncExpr') and n.get('identifier') is not None:
-            ok[0] = False
-    _walk(tree, on)
-    return ok[0]
-
-
 # ----------------------------------------------------------------------------- the check
 
 class Check(object):
@@ -762,7 +748,6 @@ class Check(object):
             ctx.bump('ScopeAgree:' + rep)
             # model-level tests, per program:  (a) the missing lemma  `not excluded p  =>  alignedOf p`  (Props/C07.lean),
             # (b) the proved theorem  `alignedOf p  =>  bindingPreserved p`  (a driver/definition sanity check)
-            is_simple = simple_program(ut.dump_tree(tree))
             for fl in (('0 0 K', '1 1 K') if len(text) < 3000 else ()):
                 pres = self.drv.ask('preserved %s %s' % (fl, line))
                 al = self.drv.ask('aligned %s %s' % (fl, line))
@@ -771,13 +756,14 @@ class Check(object):
                 ctx.bump('model:aligned[%s]:%s' % (fl, al))
                 ctx.bump('model:excluded[%s]:%s' % (fl, ex))
                 self.n_impl += 1
-                # (c) the walk facts of simple programs outside the recorded deviation classes (hypothesis of
-                # `capture_free_of_walk_facts`; with catch clauses the facts fail exactly on KF-07a programs)
-                if is_simple and fl == '1 1 K' and ex.startswith('OK F'):
-                    fa = self.drv.ask('facts %s %s' % (fl, line))
-                    ctx.bump('model:walk-facts[simple,%s]:%s' % (fl, fa))
-                    if fa != 'OK T':
-                        self.impl_fail.append(dict(text=text[:400], flags=fl, what='simple program but walk facts fail: %s' % fa))
+                # (c) the walk facts (hypothesis of `capture_free_of_walk_facts` / `aligned_of_walk_facts`, Props/C07.lean) hold on
+                # every program outside the recorded deviation classes; where they hold the program is aligned (the theorem)
+                fa = self.drv.ask('facts %s %s' % (fl, line))
+                ctx.bump('model:walk-facts[%s]:%s' % (fl, fa))
+                if ex.startswith('OK F') and fa != 'OK T':
+                    self.impl_fail.append(dict(text=text[:400], flags=fl, what='not excluded but walk facts fail: %s' % fa))
+                if fa == 'OK T' and al != 'OK T':
+                    self.impl_fail.append(dict(text=text[:400], flags=fl, what='walk facts hold but not aligned (contradicts aligned_of_walk_facts)'))
                 if ex.startswith('OK F') and al != 'OK T':
                     self.impl_fail.append(dict(text=text[:400], flags=fl, what='not excluded but not aligned: %s' % al))
                 if al == 'OK T' and pres != 'OK T':
@@ -838,7 +824,7 @@ class Check(object):
             ctx.violation('obfuscation breaks the property (%s): %r with %s: %s'
                           % (', '.join(key), small[:300], cfg.id, sfails[0][1][:300]),
                           dict(kind='program', text=small, printer=cfg.todict(), categories=list(key)), True)
-        ctx.obligation('model: not excluded implies aligned (the lemma missing for binding_preserved; tested per program), aligned implies preserved, simple programs have the walk facts',
+        ctx.obligation('model: not excluded implies aligned (the lemma missing for binding_preserved; tested per program), aligned implies preserved, programs outside the deviation classes have the walk facts, walk facts imply aligned',
                        not self.impl_fail, 'tie', '%d (program, flags) pairs; counterexamples: %r' % (self.n_impl, self.impl_fail[:2]))
         for stage, what in (('S7', 'Obfuscator state after the prewalk (scope tree, counts, remap tables, resolved names) vs drv_obf'),
                             ('S4', 'fragment streams of the obfuscating printers vs Model.Obfuscate + Model.Unparse'),
